@@ -125,6 +125,12 @@ pub trait Property: Sync {
     fn exhaustive_note(&self, _tier: Tier) -> Option<String> {
         None
     }
+    /// Some((rule, seconds)) if the property itself asserts termination: an execution that makes no
+    /// progress for that long, outside the reach of the simulated step clock, is then a violation of
+    /// that rule rather than a harness error.
+    fn stall_is_violation(&self) -> Option<(&'static str, u64)> {
+        None
+    }
     /// evidence-only extras computed from the aggregated observations
     fn extra_evidence(&self, _agg: &Agg) -> Value {
         Value::Null
@@ -406,10 +412,16 @@ pub fn run_check<P: Property>(p: &P, st: &Settings) -> i32 {
     // clock long before; this only protects against bugs in generators and oracles.)
     let completed = AtomicU64::new(0);
     let finished = AtomicBool::new(false);
+    let in_flight: Vec<AtomicU64> = (0..st.workers).map(|_| AtomicU64::new(u64::MAX)).collect();
+    let worker_ids = AtomicU64::new(0);
     let aggs: Vec<Agg> = std::thread::scope(|sc| {
         sc.spawn(|| {
             let mut last = 0u64;
-            let mut idle = 0u32;
+            let mut idle = 0u64;
+            let limit_halfsecs = match p.stall_is_violation() {
+                Some((_, secs)) => secs * 2,
+                None => 1200,
+            };
             while !finished.load(Ordering::Relaxed) {
                 std::thread::sleep(std::time::Duration::from_millis(500));
                 let c = completed.load(Ordering::Relaxed);
@@ -418,8 +430,25 @@ pub fn run_check<P: Property>(p: &P, st: &Settings) -> i32 {
                     idle = 0;
                 } else {
                     idle += 1;
-                    if idle > 1200 {
-                        eprintln!("HARNESS-ERROR: no run completed for 10 minutes (about {} of {} done): a generator or oracle is stuck", c, n);
+                    if idle > limit_halfsecs {
+                        let stuck = in_flight.iter().map(|a| a.load(Ordering::Relaxed)).min().unwrap_or(u64::MAX);
+                        if let (Some((rule, secs)), true) = (p.stall_is_violation(), stuck != u64::MAX) {
+                            // the trace is a pure function of (seed, run): write the replay file without executing it
+                            let mut rng = Rng::for_run(st.seed, id, stuck);
+                            let trace = p.generate(&mut rng, st.tier, stuck);
+                            let dir = st.verif_dir.join("replays");
+                            let _ = std::fs::create_dir_all(&dir);
+                            let path = dir.join(format!("{}-{}-seed{}-run{}.json", id, rule, st.seed, stuck));
+                            let doc = json!({"property": id, "rule": rule, "verif_seed": st.seed, "run": stuck, "tier": st.tier.name(),
+                                "trace": serde_json::to_value(&trace).unwrap_or(Value::Null),
+                                "detail": format!("no execution completed for {} s of wall clock while run {} was in flight: the code under test does not return (outside the loop the simulated step clock watches); not minimised", secs, stuck),
+                                "repo_head": repo_head()});
+                            let _ = std::fs::write(&path, serde_json::to_string_pretty(&doc).unwrap());
+                            println!("violation: rule={} run={} : no progress for {} s; the operation under test does not return", rule, stuck, secs);
+                            println!("VIOLATION property={} replay={}", id, path.display());
+                            std::process::exit(1);
+                        }
+                        eprintln!("HARNESS-ERROR: no run completed for {} s (about {} of {} done): a generator or oracle is stuck", limit_halfsecs / 2, c, n);
                         std::process::exit(2);
                     }
                 }
@@ -429,6 +458,7 @@ pub fn run_check<P: Property>(p: &P, st: &Settings) -> i32 {
             .map(|_| {
                 sc.spawn(|| {
                     let mut agg = Agg::default();
+                    let me = worker_ids.fetch_add(1, Ordering::Relaxed) as usize % in_flight.len();
                     loop {
                         if stop.load(Ordering::Relaxed) {
                             break;
@@ -438,6 +468,7 @@ pub fn run_check<P: Property>(p: &P, st: &Settings) -> i32 {
                             break;
                         }
                         for run in start..(start + chunk).min(n) {
+                            in_flight[me].store(run, Ordering::Relaxed);
                             let mut rng = Rng::for_run(st.seed, id, run);
                             let r = catch(|| {
                                 let trace = p.generate(&mut rng, st.tier, run);
@@ -457,6 +488,7 @@ pub fn run_check<P: Property>(p: &P, st: &Settings) -> i32 {
                                 }
                             };
                             agg.absorb_obs(run, &obs, keep_digests);
+                            in_flight[me].store(u64::MAX, Ordering::Relaxed);
                             completed.fetch_add(1, Ordering::Relaxed);
                             if sample_idx.contains(&run) {
                                 let v = json!({"run": run, "trace": serde_json::to_value(&trace).unwrap_or(Value::Null),
@@ -720,6 +752,29 @@ pub fn replay<P: Property>(p: &P, path: &Path, verif_dir: &Path) -> i32 {
         }
     };
     let want_rule = doc.get("rule").and_then(|x| x.as_str()).unwrap_or("").to_string();
+    if let Some((rule, secs)) = p.stall_is_violation() {
+        // guard the re-execution: if it does not return, that *is* the violation
+        let done = AtomicBool::new(false);
+        let pid = p.id();
+        let shown = path.display().to_string();
+        std::thread::scope(|sc| {
+            sc.spawn(|| {
+                let mut waited = 0u64;
+                while !done.load(Ordering::Relaxed) {
+                    std::thread::sleep(std::time::Duration::from_millis(500));
+                    waited += 1;
+                    if waited > secs * 2 {
+                        println!("violation: rule={} : the operation under test did not return within {} s", rule, secs);
+                        println!("VIOLATION property={} replay={}", pid, shown);
+                        std::process::exit(1);
+                    }
+                }
+            });
+            let mut obs = Obs::default();
+            let _ = catch(|| p.execute(&trace, &mut obs));
+            done.store(true, Ordering::Relaxed);
+        });
+    }
     let mut obs = Obs::default();
     let fails = match catch(|| p.execute(&trace, &mut obs)) {
         Ok(f) => f,
